@@ -29,6 +29,14 @@ class DocActions(object):
 
     self._engine.add_records(table_id, row_ids, column_values)
 
+    # As for updates: a non-formula column may have a trigger formula, which the values of the new
+    # record would set off. Prevent that for the columns given an explicit value (in particular when
+    # an undo brings back a removed record).
+    for col_id in column_values:
+      col = table.get_column(col_id)
+      if not col.is_formula():
+        self._engine.prevent_recalc(col.node, row_ids, should_prevent=True)
+
   def RemoveRecord(self, table_id, row_id):
     return self.BulkRemoveRecord(table_id, [row_id])
 
